@@ -625,3 +625,867 @@ Proof.
   - (* string *) destruct d; try discriminate Hv. exists (EStr s), (JStr s).
     repeat split; try reflexivity. cbn. apply ustr_eqb_refl.
 Qed.
+
+(* ================================================================== typing, all kinds but untagged enums *)
+Fixpoint distinct (l : list ustring) : bool :=
+  match l with [] => true | x :: r => negb (mem_ustr x r) && distinct r end.
+
+Definition is_flatten (p : prop) : bool := match p_rename p with RFlatten => true | _ => false end.
+Definition wire_names (ps : list prop) : list ustring :=
+  flat_map (fun p => match wire_name p with Some n => [n] | None => [] end) ps.
+
+(* a member the typing theorem covers: a direct member whose type is in the fragment and, unless the member is
+   required, implements Default (an absent member is rendered `Default::default()`), or ONE flattened map with
+   String keys *)
+Definition prop_simple (T : space) (g : nat) (fr : id -> bool) (p : prop) : bool :=
+  match p_rename p with
+  | RFlatten =>
+      match get_det T (p_ty p) with
+      | Some (DMap k _) => match get_det T k with Some DString => fr (p_ty p) | _ => false end
+      | _ => false
+      end
+  | _ => fr (p_ty p) && (is_required p || defaultable T g (p_ty p))
+  end.
+Definition props_simple (T : space) (g : nat) (fr : id -> bool) (ps : list prop) : bool :=
+  forallb (prop_simple T g fr) ps && distinct (map p_name ps) && distinct (wire_names ps) &&
+  (length (filter is_flatten ps) <=? 1)%nat.
+
+Definition variant_simple (T : space) (g : nat) (fr : id -> bool) (v : variant) : bool :=
+  negb (match v_ident v with [] => true | _ => false end) &&
+  match v_det v with
+  | VSimple => true
+  | VItem t => fr t
+  | VTuple ts => forallb fr ts
+  | VStruct ps => props_simple T g fr ps
+  end.
+
+Fixpoint tfrag (T : space) (g : nat) (fuel : nat) (t : id) {struct fuel} : bool :=
+  match fuel with
+  | O => false
+  | S n =>
+      match get_det T t with
+      | Some DBoolean | Some DString | Some DUnit | Some DJsonValue | Some (DNative _ _ _) => true
+      | Some (DInteger nm) => known_int nm
+      | Some (DFloat nm) => negb (is_nonzero_name nm)
+      | Some (DOption x) | Some (DBox x) | Some (DVec x) | Some (DSet x) | Some (DArray x _)
+      | Some (DNewtype _ _ x _) => tfrag T g n x
+      | Some (DTuple ts) => forallb (tfrag T g n) ts
+      | Some (DMap k v) => tfrag T g n k && tfrag T g n v
+      | Some (DStruct _ _ ps _) => props_simple T g (tfrag T g n) ps
+      | Some (DEnum _ _ tag vs _ _) =>
+          match tag with TagUntagged => false | _ => true end &&
+          forallb (variant_simple T g (tfrag T g n)) vs && distinct (map v_ident vs)
+      | _ => false
+      end
+  end.
+
+Lemma tfrag_get : forall T g n t, tfrag T g n t = true -> exists d, get_det T t = Some d.
+Proof. intros T g n t H. destruct n; cbn in H; [discriminate|]. destruct (get_det T t); [eauto|discriminate]. Qed.
+
+Lemma typed_map : forall T g t k v kvs, get_det T t = Some (DMap k v) ->
+  Forall (fun ab => expr_typed T g (fst ab) k = true /\ expr_typed T g (snd ab) v = true) kvs ->
+  expr_typed T g (EMap kvs) t = true.
+Proof.
+  intros T g t k v kvs Hg H. cbn [expr_typed]. rewrite Hg. induction H as [|[a b] kvs [Ha Hb] _ IH]; [reflexivity|].
+  cbn in Ha, Hb. cbn. rewrite Ha, Hb. exact IH.
+Qed.
+
+(* ---------------------------------------------------------------- association lists / named_of *)
+Lemma ustr_eqb_sym : forall a b, ustr_eqb a b = ustr_eqb b a.
+Proof.
+  induction a as [|x a IH]; destruct b as [|y b]; cbn; try reflexivity. rewrite N.eqb_sym, IH. reflexivity.
+Qed.
+
+Lemma mem_ustr_in : forall k l, mem_ustr k l = true <-> In k l.
+Proof.
+  intros k l. unfold mem_ustr. rewrite existsb_exists. split.
+  - intros [x [Hin Hx]]. apply ustr_eqb_eq in Hx. subst. exact Hin.
+  - intros Hin. exists k. split; [exact Hin|apply ustr_eqb_refl].
+Qed.
+
+Lemma assoc_remove_neq : forall A k k' (m : list (ustring * A)),
+  ustr_eqb k k' = false -> assoc k (remove_key k' m) = assoc k m.
+Proof.
+  intros A k k' m Hn. induction m as [|[k2 v] m IH]; [reflexivity|]. cbn.
+  destruct (ustr_eqb k' k2) eqn:E.
+  - apply ustr_eqb_eq in E. subst k2. rewrite Hn. exact IH.
+  - cbn. destruct (ustr_eqb k k2); [reflexivity|exact IH].
+Qed.
+
+Definition names_of (l : list pinfo) : list ustring :=
+  flat_map (fun '(nm, _, _) => match nm with Some k => [k] | None => [] end) l.
+Definition nstep (m : list (ustring * (id * bool))) (i : pinfo) :=
+  let '(nm, t, req) := i in match nm with Some k => bt_insert k (t, req) m | None => m end.
+
+Lemma named_of_fold : forall l, named_of l = fold_left nstep l [].
+Proof. intros l. unfold named_of. f_equal. Qed.
+
+Lemma fold_named_notin : forall l acc k,
+  mem_ustr k (names_of l) = false -> assoc k (fold_left nstep l acc) = assoc k acc.
+Proof.
+  induction l as [|[[nm t] req] l IH]; intros acc k H; [reflexivity|]. cbn [fold_left].
+  destruct nm as [k'|]; cbn in H.
+  - apply orb_false_iff in H. destruct H as [H1 H2]. rewrite (IH _ _ H2). cbn. rewrite H1.
+    apply assoc_remove_neq. exact H1.
+  - exact (IH _ _ H).
+Qed.
+
+Lemma fold_named_in : forall l acc k t r,
+  distinct (names_of l) = true -> In (Some k, t, r) l -> assoc k (fold_left nstep l acc) = Some (t, r).
+Proof.
+  induction l as [|[[nm t0] r0] l IH]; intros acc k t r Hd Hin; [destruct Hin|]. cbn [fold_left].
+  destruct Hin as [E|Hin].
+  - inversion E; subst. cbn in Hd. apply andb_true_iff in Hd. destruct Hd as [Hm _].
+    apply negb_true_iff in Hm. rewrite (fold_named_notin _ _ _ Hm). cbn. rewrite ustr_eqb_refl. reflexivity.
+  - destruct nm as [k'|]; cbn in Hd.
+    + apply andb_true_iff in Hd. destruct Hd as [_ Hd]. exact (IH _ _ _ _ Hd Hin).
+    + exact (IH _ _ _ _ Hd Hin).
+Qed.
+
+Lemma any_is_ok_true : forall A B (f : A -> res B) l,
+  any_is_ok f l = ROk true -> exists x b, In x l /\ f x = ROk b.
+Proof.
+  intros A B f l. induction l as [|y l IH]; intros H; cbn in H; [discriminate|].
+  destruct (f y) as [b0| | |] eqn:Ey; try discriminate.
+  - exists y, b0. split; [now left|exact Ey].
+  - destruct (IH H) as [x [b [Hin Hx]]]. exists x, b. split; [now right|exact Hx].
+Qed.
+
+Lemma assoc_in : forall A k (m : list (ustring * A)) v, assoc k m = Some v -> exists k', In (k', v) m /\ ustr_eqb k k' = true.
+Proof.
+  intros A k m v. induction m as [|[k2 v2] m IH]; cbn; [discriminate|].
+  destruct (ustr_eqb k k2) eqn:E.
+  - intro H. inversion H; subst. exists k2. split; [now left|exact E].
+  - intro H. destruct (IH H) as [k' [Hin Hk]]. exists k'. split; [now right|exact Hk].
+Qed.
+
+(* ---------------------------------------------------------------- all_props on simple members *)
+Definition pinfo_of (T : space) (p : prop) : pinfo :=
+  match wire_name p with
+  | Some n => (Some n, p_ty p, is_required p)
+  | None => match get_det T (p_ty p) with
+            | Some (DMap _ v) => (None, v, false)
+            | _ => (None, p_ty p, false)
+            end
+  end.
+
+Lemma wire_name_none : forall p, wire_name p = None <-> p_rename p = RFlatten.
+Proof. intros p. unfold wire_name. destruct (p_rename p); split; intro H; try discriminate; reflexivity. Qed.
+
+Lemma aprops_simple : forall T g fr n p l,
+  prop_simple T g fr p = true -> all_props T n p = ROk l -> l = [pinfo_of T p].
+Proof.
+  intros T g fr n p l Hs H. unfold pinfo_of. destruct n; cbn in H.
+  - destruct (wire_name p) eqn:Ew; [inversion H; reflexivity|discriminate H].
+  - destruct (wire_name p) eqn:Ew; [inversion H; reflexivity|].
+    apply wire_name_none in Ew. unfold prop_simple in Hs. rewrite Ew in Hs.
+    destruct (get_det T (p_ty p)) as [d|]; [|discriminate Hs]. destruct d; try discriminate Hs.
+    inversion H. reflexivity.
+Qed.
+
+Lemma flat_map_r_simple : forall T g fr n ps l,
+  forallb (prop_simple T g fr) ps = true -> flat_map_r (all_props T n) ps = ROk l -> l = map (pinfo_of T) ps.
+Proof.
+  intros T g fr n ps. induction ps as [|p ps IH]; intros l Hs H; cbn in H.
+  - inversion H. reflexivity.
+  - cbn in Hs. apply andb_true_iff in Hs. destruct Hs as [Hp Hs].
+    apply rbind_ok in H. destruct H as [a [Ha H]]. apply rbind_ok in H. destruct H as [b [Hb H]].
+    inversion H. rewrite (aprops_simple _ _ _ _ _ _ Hp Ha), (IH _ Hs Hb). reflexivity.
+Qed.
+
+Lemma names_of_pinfo : forall T ps, names_of (map (pinfo_of T) ps) = wire_names ps.
+Proof.
+  intros T ps. induction ps as [|p ps IH]; [reflexivity|]. cbn. unfold wire_names in *. cbn. rewrite <- IH.
+  unfold pinfo_of. destruct (wire_name p); [reflexivity|].
+  destruct (get_det T (p_ty p)) as [d|]; [destruct d|]; reflexivity.
+Qed.
+
+Lemma unnamed_cons : forall a l, unnamed_of (a :: l) = (unnamed_of [a] ++ unnamed_of l)%list.
+Proof. intros a l. unfold unnamed_of. cbn. rewrite app_nil_r. reflexivity. Qed.
+
+(* the (at most one) flattened map's value type *)
+Lemma unnamed_one : forall T g fr ps t,
+  forallb (prop_simple T g fr) ps = true -> (length (filter is_flatten ps) <=? 1)%nat = true ->
+  In t (unnamed_of (map (pinfo_of T) ps)) ->
+  forall p, In p ps -> is_flatten p = true ->
+  exists k, get_det T (p_ty p) = Some (DMap k t).
+Proof.
+  intros T g fr ps. induction ps as [|q ps IH]; intros t Hs Hl Hin p Hp Hf; [destruct Hp|].
+  cbn in Hs. apply andb_true_iff in Hs. destruct Hs as [Hq Hs].
+  assert (Hun : forall q', prop_simple T g fr q' = true -> is_flatten q' = false -> unnamed_of [pinfo_of T q'] = []).
+  { intros q' _ Hnf. unfold pinfo_of, is_flatten in *. destruct (wire_name q') eqn:Ew; [reflexivity|].
+    apply wire_name_none in Ew. rewrite Ew in Hnf. discriminate. }
+  assert (Hfl : forall q', prop_simple T g fr q' = true -> is_flatten q' = true ->
+                exists k v, get_det T (p_ty q') = Some (DMap k v) /\ unnamed_of [pinfo_of T q'] = [v]).
+  { intros q' Hq' Hff. unfold is_flatten in Hff. unfold prop_simple in Hq'. unfold pinfo_of.
+    destruct (p_rename q') eqn:Er; try discriminate Hff.
+    assert (Ew : wire_name q' = None) by (apply wire_name_none; exact Er). rewrite Ew.
+    destruct (get_det T (p_ty q')) as [d|]; [|discriminate Hq']. destruct d; try discriminate Hq'. eauto. }
+  cbn [map] in Hin. rewrite unnamed_cons in Hin.
+  cbn [filter] in Hl.
+  destruct (is_flatten q) eqn:Efq.
+  - (* q is the flattened member: no other one *)
+    cbn [length] in Hl.
+    assert (Hnone : filter is_flatten ps = []).
+    { destruct (filter is_flatten ps); [reflexivity|discriminate Hl]. }
+    assert (Hrest : unnamed_of (map (pinfo_of T) ps) = []).
+    { clear -Hs Hnone Hun. induction ps as [|r ps IH2]; [reflexivity|]. cbn in Hs. apply andb_true_iff in Hs.
+      destruct Hs as [Hr Hs]. cbn in Hnone. destruct (is_flatten r) eqn:Er; [discriminate Hnone|].
+      cbn [map]. rewrite unnamed_cons, (Hun r Hr Er), (IH2 Hs Hnone). reflexivity. }
+    destruct (Hfl q Hq Efq) as [k [v [Hg Hu]]]. rewrite Hu, Hrest in Hin. cbn in Hin. destruct Hin as [<-|[]].
+    destruct Hp as [<-|Hp]; [eauto|].
+    exfalso. assert (In p (filter is_flatten ps)) by (apply filter_In; split; assumption). rewrite Hnone in H. exact H.
+  - rewrite (Hun q Hq Efq) in Hin. cbn in Hin.
+    destruct Hp as [<-|Hp]; [rewrite Hf in Efq; discriminate|].
+    exact (IH t Hs Hl Hin p Hp Hf).
+Qed.
+
+(* ---------------------------------------------------------------- struct members *)
+Definition fields_good (T : space) (g : nat) (ps : list prop) (fs : list (fname * expr)) : Prop :=
+  length fs = length ps /\
+  (forall p, In p ps -> exists e, In (FId (p_name p), e) fs) /\
+  (forall fn e, In (fn, e) fs -> exists p, In p ps /\ fn = FId (p_name p) /\ expr_typed T g e (p_ty p) = true).
+
+Section StructStep.
+  Variable T : space.
+  Variable g : nat.
+  Variable n : nat.
+  Variable vrec : id -> json -> res kind.
+  Variable orec : id -> json -> res expr.
+  Variable fr : id -> bool.
+  Hypothesis IHrec : forall t x k, vrec t x = ROk k -> fr t = true ->
+    exists e, orec t x = ROk e /\ expr_typed T g e t = true.
+  Hypothesis Hfr_get : forall t, fr t = true -> exists d, get_det T t = Some d.
+  Hypothesis Hmap : forall t k v m, get_det T t = Some (DMap k v) -> get_det T k = Some DString -> fr t = true ->
+    (forall key x, In (key, x) m -> exists kk, vrec v x = ROk kk) ->
+    exists e, orec t (JObj m) = ROk e /\ expr_typed T g e t = true.
+
+  Lemma struct_step_typed : forall ps d k,
+    v_struct_props vrec (all_props T n) ps d = ROk k -> props_simple T g fr ps = true ->
+    exists fs, o_struct_props T orec ps d = ROk fs /\ fields_good T g ps fs.
+  Proof.
+    intros ps d k H Hs. unfold props_simple in Hs.
+    apply andb_true_iff in Hs. destruct Hs as [Hs Hone].
+    apply andb_true_iff in Hs. destruct Hs as [Hs Hdw].
+    apply andb_true_iff in Hs. destruct Hs as [Hall Hdn].
+    unfold v_struct_props in H.
+    apply rbind_ok in H. destruct H as [m [Hm H]]. apply of_opt_ok in Hm.
+    apply rbind_ok in H. destruct H as [l [Hl H]].
+    pose proof (flat_map_r_simple _ _ _ _ _ _ Hall Hl) as El. subst l.
+    apply rbind_ok in H. destruct H as [u1 [He1 H]]. destruct u1.
+    apply rbind_ok in H. destruct H as [u2 [He2 _]]. destruct u2.
+    set (named := named_of (map (pinfo_of T) ps)) in *.
+    set (unnamed := unnamed_of (map (pinfo_of T) ps)) in *.
+    assert (Hnamed : forall p nm, In p ps -> wire_name p = Some nm ->
+                       assoc nm named = Some (p_ty p, is_required p)).
+    { intros p nm Hin Hw. unfold named. rewrite named_of_fold. apply fold_named_in.
+      - rewrite names_of_pinfo. exact Hdw.
+      - apply in_map_iff. exists p. split; [|exact Hin]. unfold pinfo_of. rewrite Hw. reflexivity. }
+    assert (Hnotnamed : forall key, mem_ustr key (wire_names ps) = false -> assoc key named = None).
+    { intros key Hk. unfold named. rewrite named_of_fold. rewrite fold_named_notin; [reflexivity|].
+      rewrite names_of_pinfo. exact Hk. }
+    assert (F1 : forall name x, In (name, x) m ->
+              match assoc name named with
+              | Some (t, _) => exists kk, vrec t x = ROk kk
+              | None => exists t kk, In t unnamed /\ vrec t x = ROk kk
+              end).
+    { intros name x Hin. destruct (each_ok_in _ _ _ _ He1 (name, x) Hin) as [b Hb]. cbn beta iota in Hb.
+      destruct (assoc name named) as [[t r]|].
+      - apply rbind_ok in Hb. destruct Hb as [kk [Hk _]]. eauto.
+      - apply rbind_ok in Hb. destruct Hb as [bb [Hbb Hb]]. destruct bb; [|discriminate Hb].
+        destruct (any_is_ok_true _ _ _ _ Hbb) as [t [kk [Ht Hk]]]. eauto. }
+    assert (F2 : forall p nm, In p ps -> wire_name p = Some nm -> is_required p = true -> has_key nm m = true).
+    { intros p nm Hin Hw Hr. pose proof (Hnamed p nm Hin Hw) as Ha. rewrite Hr in Ha.
+      destruct (assoc_in _ _ _ _ Ha) as [k' [Hk' Ek]]. apply ustr_eqb_eq in Ek. subst k'.
+      destruct (each_ok_in _ _ _ _ He2 _ Hk') as [b Hb]. cbn beta iota in Hb.
+      destruct (has_key nm m); [reflexivity|discriminate Hb]. }
+    unfold o_struct_props. rewrite Hm. cbn [of_opt rbind].
+    (* direct members *)
+    assert (HD : forall qs, (forall q, In q qs -> In q ps) ->
+      exists dl, filter_map_r (fun p =>
+          match wire_name p with
+          | None => ROk None
+          | Some name =>
+              match assoc name m with
+              | Some x => rbind (optional (orec (p_ty p) x)) (fun oe => ROk (option_map (fun e => (FId (p_name p), e)) oe))
+              | None => ROk (Some (FId (p_name p), EDefault))
+              end
+          end) qs = ROk dl /\
+        length dl = length (filter (fun p => negb (is_flatten p)) qs) /\
+        (forall q, In q qs -> is_flatten q = false -> exists e, In (FId (p_name q), e) dl) /\
+        (forall fn e, In (fn, e) dl -> exists p, In p ps /\ fn = FId (p_name p) /\ expr_typed T g e (p_ty p) = true)).
+    { induction qs as [|q qs IHq]; intros Hsub.
+      - exists []. repeat split; try reflexivity; intros; contradiction.
+      - destruct (IHq (fun q' Hq' => Hsub q' (or_intror Hq'))) as [dl [Hdl [Hlen [Hcov Hty]]]].
+        pose proof (Hsub q (or_introl eq_refl)) as Hq.
+        pose proof (proj1 (forallb_forall _ _) Hall q Hq) as Hqs. unfold prop_simple in Hqs.
+        cbn [filter_map_r].
+        destruct (wire_name q) as [nm|] eqn:Ew.
+        + assert (Enf : is_flatten q = false).
+          { unfold is_flatten. unfold wire_name in Ew. destruct (p_rename q); try reflexivity. discriminate Ew. }
+          assert (Hqs' : fr (p_ty q) = true /\ (is_required q || defaultable T g (p_ty q)) = true).
+          { unfold is_flatten in Enf. destruct (p_rename q); try discriminate Enf; apply andb_true_iff in Hqs; exact Hqs. }
+          destruct Hqs' as [Hfr Hdef].
+          assert (Hent : exists e, (match assoc nm m with
+                     | Some x => rbind (optional (orec (p_ty q) x)) (fun oe => ROk (option_map (fun e => (FId (p_name q), e)) oe))
+                     | None => ROk (Some (FId (p_name q), EDefault))
+                     end) = ROk (Some (FId (p_name q), e)) /\ expr_typed T g e (p_ty q) = true).
+          { destruct (assoc nm m) as [x|] eqn:Ea.
+            - destruct (assoc_in _ _ _ _ Ea) as [k' [Hin' Ek]]. apply ustr_eqb_eq in Ek. subst k'.
+              pose proof (F1 nm x Hin') as HF. rewrite (Hnamed q nm Hq Ew) in HF. destruct HF as [kk Hk].
+              destruct (IHrec _ _ _ Hk Hfr) as [e [He Te]]. exists e. rewrite He. cbn. split; [reflexivity|exact Te].
+            - exists EDefault. split; [reflexivity|].
+              destruct (Hfr_get _ Hfr) as [dd Hdd]. cbn [expr_typed]. rewrite Hdd.
+              destruct (is_required q) eqn:Er; [|exact Hdef].
+              pose proof (F2 q nm Hq Ew Er) as Hk. unfold has_key in Hk. rewrite Ea in Hk. discriminate Hk. }
+          destruct Hent as [e [He Te]]. rewrite He. cbn [rbind]. rewrite Hdl. cbn [rbind].
+          exists ((FId (p_name q), e) :: dl). cbn [filter]. rewrite Enf. cbn [negb length]. split; [reflexivity|].
+          split; [cbn; rewrite Hlen; reflexivity|]. split.
+          * intros q' [<-|Hq'] Hnf'; [exists e; now left|]. destruct (Hcov q' Hq' Hnf') as [e' He']. exists e'. now right.
+          * intros fn e' [E|Hin']; [inversion E; subst; exists q; auto|exact (Hty fn e' Hin')].
+        + assert (Ef : is_flatten q = true).
+          { unfold is_flatten. apply wire_name_none in Ew. rewrite Ew. reflexivity. }
+          cbn [rbind]. rewrite Hdl. cbn [rbind]. exists dl. cbn [filter]. rewrite Ef. cbn [negb]. split; [reflexivity|].
+          split; [exact Hlen|]. split; [|exact Hty].
+          intros q' [<-|Hq'] Hnf'; [rewrite Hnf' in Ef; discriminate|exact (Hcov q' Hq' Hnf')]. }
+    destruct (HD ps (fun q H => H)) as [dl [Hdl [Hdlen [Hdcov Hdty]]]].
+    change (flat_map (fun p => match wire_name p with Some n0 => [n0] | None => [] end) ps) with (wire_names ps).
+    rewrite Hdl. cbn [rbind].
+    (* flattened members *)
+    set (extra := filter (fun '(k0, _) => negb (mem_ustr k0 (wire_names ps))) m).
+    assert (HF : forall qs, (forall q, In q qs -> In q ps) ->
+      exists fl, filter_map_r (fun p =>
+          match p_rename p with
+          | RFlatten =>
+              match get_det T (p_ty p) with
+              | None => RPanic
+              | Some (DStruct _ _ _ _) | Some (DOption _) | Some (DMap _ _) =>
+                  rbind (optional (orec (p_ty p) (JObj extra))) (fun oe => ROk (option_map (fun e => (FId (p_name p), e)) oe))
+              | Some _ => RPanic
+              end
+          | _ => ROk None
+          end) qs = ROk fl /\
+        length fl = length (filter is_flatten qs) /\
+        (forall q, In q qs -> is_flatten q = true -> exists e, In (FId (p_name q), e) fl) /\
+        (forall fn e, In (fn, e) fl -> exists p, In p ps /\ fn = FId (p_name p) /\ expr_typed T g e (p_ty p) = true)).
+    { induction qs as [|q qs IHq]; intros Hsub.
+      - exists []. repeat split; try reflexivity; intros; contradiction.
+      - destruct (IHq (fun q' Hq' => Hsub q' (or_intror Hq'))) as [fl [Hfl [Hlen [Hcov Hty]]]].
+        pose proof (Hsub q (or_introl eq_refl)) as Hq.
+        pose proof (proj1 (forallb_forall _ _) Hall q Hq) as Hqs. unfold prop_simple in Hqs.
+        cbn [filter_map_r filter]. unfold is_flatten at 1.
+        destruct (p_rename q) eqn:Er.
+        + cbn [rbind]. rewrite Hfl. cbn [rbind]. exists fl. split; [reflexivity|]. split; [exact Hlen|]. split; [|exact Hty].
+          intros q' [<-|Hq'] Hf'; [unfold is_flatten in Hf'; rewrite Er in Hf'; discriminate|exact (Hcov q' Hq' Hf')].
+        + cbn [rbind]. rewrite Hfl. cbn [rbind]. exists fl. split; [reflexivity|]. split; [exact Hlen|]. split; [|exact Hty].
+          intros q' [<-|Hq'] Hf'; [unfold is_flatten in Hf'; rewrite Er in Hf'; discriminate|exact (Hcov q' Hq' Hf')].
+        + destruct (get_det T (p_ty q)) as [dq|] eqn:Hgq; [|discriminate Hqs].
+          destruct dq; try discriminate Hqs.
+          destruct (get_det T k0) as [dk|] eqn:Hgk; [|discriminate Hqs]. destruct dk; try discriminate Hqs.
+          assert (Efq : is_flatten q = true) by (unfold is_flatten; rewrite Er; reflexivity).
+          assert (Hvals : forall key x, In (key, x) extra -> exists kk, vrec v x = ROk kk).
+          { intros key x Hin. unfold extra in Hin. apply filter_In in Hin. destruct Hin as [Hin Hk].
+            apply negb_true_iff in Hk. pose proof (F1 key x Hin) as HF1. rewrite (Hnotnamed key Hk) in HF1.
+            destruct HF1 as [t [kk [Ht Hvk]]].
+            destruct (unnamed_one _ _ _ _ _ Hall Hone Ht q Hq Efq) as [k' Hk']. rewrite Hgq in Hk'. inversion Hk'; subst.
+            eauto. }
+          destruct (Hmap _ _ _ extra Hgq Hgk Hqs Hvals) as [e [He Te]]. rewrite He. cbn [optional rbind option_map].
+          rewrite Hfl. cbn [rbind]. exists ((FId (p_name q), e) :: fl). split; [reflexivity|].
+          split; [cbn; rewrite Hlen; reflexivity|]. split.
+          * intros q' [<-|Hq'] Hf'; [exists e; now left|]. destruct (Hcov q' Hq' Hf') as [e' He']. exists e'. now right.
+          * intros fn e' [E|Hin']; [inversion E; subst; exists q; auto|exact (Hty fn e' Hin')]. }
+    destruct (HF ps (fun q H => H)) as [fl [Hfl [Hflen [Hfcov Hfty]]]].
+    fold extra. rewrite Hfl. cbn [rbind]. eexists. split; [reflexivity|].
+    unfold fields_good. split; [|split].
+    - rewrite app_length, Hdlen, Hflen. clear. induction ps as [|p ps IH]; [reflexivity|]. cbn.
+      destruct (is_flatten p); cbn; lia.
+    - intros p Hp. destruct (is_flatten p) eqn:Ef.
+      + destruct (Hfcov p Hp Ef) as [e He]. exists e. apply in_or_app. now right.
+      + destruct (Hdcov p Hp Ef) as [e He]. exists e. apply in_or_app. now left.
+    - intros fn e Hin. apply in_app_or in Hin. destruct Hin as [Hin|Hin]; [exact (Hdty _ _ Hin)|exact (Hfty _ _ Hin)].
+  Qed.
+End StructStep.
+
+Lemma find_prop_distinct : forall ps p, distinct (map p_name ps) = true -> In p ps -> find_prop (p_name p) ps = Some p.
+Proof.
+  induction ps as [|a ps IH]; intros p Hd Hin; [destruct Hin|]. cbn in Hd. apply andb_true_iff in Hd. destruct Hd as [Hm Hd].
+  cbn. destruct Hin as [<-|Hin]; [rewrite ustr_eqb_refl; reflexivity|].
+  destruct (ustr_eqb (p_name p) (p_name a)) eqn:E; [|exact (IH p Hd Hin)].
+  exfalso. apply ustr_eqb_eq in E. apply negb_true_iff in Hm.
+  assert (mem_ustr (p_name a) (map p_name ps) = true) by (apply mem_ustr_in; rewrite <- E; apply in_map; exact Hin).
+  congruence.
+Qed.
+
+Lemma find_variant_in : forall s vs var, find_variant s vs = Some var -> In var vs.
+Proof.
+  induction vs as [|a vs IH]; intros var H; cbn in H; [discriminate|].
+  destruct (ustr_eqb s (v_raw a)); [inversion H; now left|right; exact (IH _ H)].
+Qed.
+
+Lemma find_ident_distinct : forall vs var, distinct (map v_ident vs) = true -> In var vs ->
+  find_variant_ident (v_ident var) vs = Some var.
+Proof.
+  induction vs as [|a vs IH]; intros var Hd Hin; [destruct Hin|]. cbn in Hd. apply andb_true_iff in Hd. destruct Hd as [Hm Hd].
+  cbn. destruct Hin as [<-|Hin]; [rewrite ustr_eqb_refl; reflexivity|].
+  destruct (ustr_eqb (v_ident var) (v_ident a)) eqn:E; [|exact (IH var Hd Hin)].
+  exfalso. apply ustr_eqb_eq in E. apply negb_true_iff in Hm.
+  assert (mem_ustr (v_ident a) (map v_ident vs) = true) by (apply mem_ustr_in; rewrite <- E; apply in_map; exact Hin).
+  congruence.
+Qed.
+
+Ltac fields_tac Hd Hgood :=
+  destruct Hgood as [Hlen [Hcov Hty]];
+  apply andb_true_iff; split; [apply andb_true_iff; split|];
+  [ rewrite Hlen; apply Nat.eqb_refl
+  | apply forallb_forall; intros p Hp; destruct (Hcov p Hp) as [e He]; apply existsb_exists;
+    exists (FId (p_name p), e); split; [exact He|apply ustr_eqb_refl]
+  | clear Hlen Hcov;
+    match goal with |- _ ?ps ?fs = true =>
+      induction fs as [|[fn e] fs IHfs]; [reflexivity|];
+      destruct (Hty fn e (or_introl eq_refl)) as [p [Hp [Efn Te]]]; subst fn;
+      cbn; rewrite (find_prop_distinct _ _ Hd Hp), Te; cbn [andb];
+      apply IHfs; intros fn' e' Hin'; exact (Hty fn' e' (or_intror Hin'))
+    end ].
+
+Lemma typed_struct : forall T g t name def ps deny fs,
+  get_det T t = Some (DStruct name def ps deny) -> distinct (map p_name ps) = true ->
+  fields_good T g ps fs -> expr_typed T g (EStruct name fs) t = true.
+Proof.
+  intros T g t name def ps deny fs Hg Hd Hgood. cbn [expr_typed]. rewrite Hg, ustr_eqb_refl. cbn [andb].
+  fields_tac Hd Hgood.
+Qed.
+
+Lemma typed_varstruct : forall T g t name def tag vs deny bes var ps fs,
+  get_det T t = Some (DEnum name def tag vs deny bes) -> find_variant_ident (v_ident var) vs = Some var ->
+  v_det var = VStruct ps -> distinct (map p_name ps) = true ->
+  fields_good T g ps fs -> expr_typed T g (EVarStruct name (v_ident var) fs) t = true.
+Proof.
+  intros T g t name def tag vs deny bes var ps fs Hg Hv Hdet Hd Hgood. cbn [expr_typed]. rewrite Hg, ustr_eqb_refl, Hv, Hdet. cbn [andb].
+  fields_tac Hd Hgood.
+Qed.
+
+(* ---------------------------------------------------------------- tuples, enum variants *)
+Section VariantStep.
+  Variable T : space.
+  Variable g : nat.
+  Variable vrec : id -> json -> res kind.
+  Variable orec : id -> json -> res expr.
+  Variable fr : id -> bool.
+  Hypothesis IHrec : forall t x k, vrec t x = ROk k -> fr t = true ->
+    exists e, orec t x = ROk e /\ expr_typed T g e t = true.
+
+  Lemma tuple_step_typed : forall ts c k, v_tuple vrec ts c = ROk k -> forallb fr ts = true ->
+    exists es, o_tuple orec ts c = ROk es /\ Forall2 (fun x e => expr_typed T g e x = true) ts es.
+  Proof.
+    intros ts c k H Hf. unfold v_tuple in H. unfold o_tuple.
+    apply rbind_ok in H. destruct H as [arr [Ha H]]. rewrite Ha. cbn.
+    destruct (Nat.eqb (length arr) (length ts)) eqn:El; [|discriminate H]. cbn [negb] in H |- *.
+    apply rbind_ok in H. destruct H as [b [Hb H]]. destruct b; [|discriminate H].
+    apply Nat.eqb_eq in El.
+    apply (map_r_forall2 (fun x e => expr_typed T g e x = true) orec ts arr El).
+    intros p Hin. destruct (all_is_ok_true_in _ _ _ _ Hb p Hin) as [k' Hk]. destruct p as [t1 x1].
+    exact (IHrec _ _ _ Hk (in_combine_forallb _ _ _ (t1, x1) Hf Hin)).
+  Qed.
+
+  Lemma typed_varunit : forall t name def tag vs deny bes var,
+    get_det T t = Some (DEnum name def tag vs deny bes) -> find_variant_ident (v_ident var) vs = Some var ->
+    v_det var = VSimple -> expr_typed T g (EVarUnit name (v_ident var)) t = true.
+  Proof. intros. cbn [expr_typed]. rewrite H, ustr_eqb_refl, H0, H1. reflexivity. Qed.
+
+  Lemma typed_varitem : forall t name def tag vs deny bes var x e,
+    get_det T t = Some (DEnum name def tag vs deny bes) -> find_variant_ident (v_ident var) vs = Some var ->
+    v_det var = VItem x -> expr_typed T g e x = true -> expr_typed T g (EVarTuple name (v_ident var) [e]) t = true.
+  Proof. intros. cbn [expr_typed]. rewrite H, ustr_eqb_refl, H0, H1. cbn. rewrite H2. reflexivity. Qed.
+
+  Lemma typed_vartuple : forall t name def tag vs deny bes var ts es,
+    get_det T t = Some (DEnum name def tag vs deny bes) -> find_variant_ident (v_ident var) vs = Some var ->
+    v_det var = VTuple ts -> Forall2 (fun x e => expr_typed T g e x = true) ts es ->
+    expr_typed T g (EVarTuple name (v_ident var) (variant_tuple es)) t = true.
+  Proof.
+    intros t name def tag vs deny bes var ts es Hg Hv Hd H2.
+    destruct H2 as [|x e ts es He H2].
+    - cbn [variant_tuple expr_typed]. rewrite Hg, ustr_eqb_refl, Hv, Hd. reflexivity.
+    - destruct H2 as [|x2 e2 ts es He2 H2].
+      + cbn [variant_tuple expr_typed]. rewrite Hg, ustr_eqb_refl, Hv, Hd. cbn. exact He.
+      + cbn [variant_tuple expr_typed]. rewrite Hg, ustr_eqb_refl, Hv, Hd. cbn. rewrite He, He2. cbn [andb].
+        clear He He2 Hd. induction H2 as [|x3 e3 ts es He3 _ IH]; [reflexivity|]. cbn. rewrite He3. cbn [andb]. exact IH.
+  Qed.
+
+  Lemma var_ident_ok : forall var, negb (match v_ident var with [] => true | _ => false end) = true ->
+    var_ident var = ROk (v_ident var).
+  Proof. intros var H. unfold var_ident. destruct (v_ident var); [discriminate H|reflexivity]. Qed.
+End VariantStep.
+
+(* ---------------------------------------------------------------- the typing theorem *)
+Definition TypedAt (re : ustring -> ustring -> bool) (T : space) (g n' : nat) : Prop :=
+  forall f t d k, validate_value re T f t d = ROk k -> tfrag T g n' t = true ->
+    exists e, output_value T n' t d = ROk e /\ expr_typed T g e t = true.
+
+Lemma flat_map_typed : forall re T g n1 f,
+  (forall m, (m < n1)%nat -> TypedAt re T g m) ->
+  forall t k v mm, get_det T t = Some (DMap k v) -> get_det T k = Some DString -> tfrag T g n1 t = true ->
+    (forall key x, In (key, x) mm -> exists kk, validate_value re T f v x = ROk kk) ->
+    exists e, output_value T n1 t (JObj mm) = ROk e /\ expr_typed T g e t = true.
+Proof.
+  intros re T g n1 f IH t k v mm Hg Hk Hf Hv.
+  destruct n1 as [|m]; [discriminate Hf|]. cbn [tfrag] in Hf. rewrite Hg in Hf.
+  apply andb_true_iff in Hf. destruct Hf as [Hfk Hfv].
+  cbn [output_value]. rewrite Hg. cbn [output_det as_object of_opt rbind].
+  destruct (tfrag_get _ _ _ _ Hfv) as [dv Hdv]. rewrite Hk, Hdv.
+  assert (Hall : forall p, In p mm -> exists ab,
+            (let '(key, x) := p in rbind (output_value T m k (JStr key)) (fun a => rbind (output_value T m v x) (fun b => ROk (a, b)))) = ROk ab /\
+            (expr_typed T g (fst ab) k = true /\ expr_typed T g (snd ab) v = true)).
+  { intros [key x] Hin. destruct (Hv key x Hin) as [kk Hkk].
+    destruct (IH m (Nat.lt_succ_diag_r m) _ _ _ _ Hkk Hfv) as [e [He Te]].
+    destruct m as [|m']; [discriminate Hfk|]. cbn [output_value]. rewrite Hk. cbn [output_det rbind].
+    cbn [output_value] in He. rewrite He. cbn [rbind]. eexists. split; [reflexivity|]. cbn [fst snd]. split; [|exact Te].
+    cbn [expr_typed]. rewrite Hk. reflexivity. }
+  destruct (map_r_forall _ _ _ _ _ Hall) as [kvs [Hkvs [Pk _]]]. rewrite Hkvs. cbn [rbind].
+  eexists. split; [reflexivity|]. exact (typed_map T g t k v kvs Hg Pk).
+Qed.
+
+Lemma split_props_simple : forall T g fr ps, props_simple T g fr ps = true -> distinct (map p_name ps) = true.
+Proof.
+  intros T g fr ps H. unfold props_simple in H. apply andb_true_iff in H. destruct H as [H _].
+  apply andb_true_iff in H. destruct H as [H _]. apply andb_true_iff in H. destruct H as [_ H]. exact H.
+Qed.
+
+Theorem tfrag_typed : forall re T g n', TypedAt re T g n'.
+Proof.
+  intros re T g n'. induction n' as [n' IHs] using lt_wf_ind. unfold TypedAt. intros f t d k H Hf.
+  destruct n' as [|n1]; [discriminate Hf|]. destruct f as [|n]; [discriminate H|].
+  assert (IH : TypedAt re T g n1) by (apply IHs; lia).
+  assert (IHm : forall m, (m < n1)%nat -> TypedAt re T g m) by (intros m Hm; apply IHs; lia).
+  cbn [validate_value] in H. cbn [tfrag] in Hf. cbn [output_value].
+  destruct (get_det T t) as [det|] eqn:Hg; [|discriminate H].
+  (* hypotheses of the struct / variant steps, at the member level *)
+  assert (IHrec : forall t x k, validate_value re T n t x = ROk k -> tfrag T g n1 t = true ->
+            exists e, output_value T n1 t x = ROk e /\ expr_typed T g e t = true).
+  { intros t' x' k' Hk' Hf'. exact (IH _ _ _ _ Hk' Hf'). }
+  assert (Hget : forall t, tfrag T g n1 t = true -> exists d, get_det T t = Some d) by (intros; eapply tfrag_get; eauto).
+  assert (Hmapn : forall t k v m, get_det T t = Some (DMap k v) -> get_det T k = Some DString -> tfrag T g n1 t = true ->
+            (forall key x, In (key, x) m -> exists kk, validate_value re T n v x = ROk kk) ->
+            exists e, output_value T n1 t (JObj m) = ROk e /\ expr_typed T g e t = true).
+  { intros. eapply flat_map_typed; eauto. }
+  destruct det; try discriminate Hf; cbn [validate_det] in H; cbn [output_det].
+  - (* enum *)
+    apply andb_true_iff in Hf. destruct Hf as [Hf Hdi]. apply andb_true_iff in Hf. destruct Hf as [Htag Hvs].
+    assert (Hvar : forall var, In var vs -> variant_simple T g (tfrag T g n1) var = true /\
+                                 find_variant_ident (v_ident var) vs = Some var).
+    { intros var Hin. split; [exact (proj1 (forallb_forall _ _) Hvs var Hin)|exact (find_ident_distinct _ _ Hdi Hin)]. }
+    destruct tag; try discriminate Htag.
+    + (* external *)
+      unfold v_external in H. unfold o_external. destruct d; try discriminate H.
+      * apply rbind_ok in H. destruct H as [var [Hv H]]. apply of_opt_ok in Hv. rewrite Hv. cbn [of_opt rbind].
+        destruct (Hvar var (find_variant_in _ _ _ Hv)) as [Hvs1 Hfi]. unfold variant_simple in Hvs1.
+        apply andb_true_iff in Hvs1. destruct Hvs1 as [Hid Hvd].
+        destruct (v_det var) eqn:Ed; try discriminate H. rewrite (var_ident_ok _ Hid). cbn [rbind].
+        eexists. split; [reflexivity|]. eapply typed_varunit; eauto.
+      * cbn [as_object of_opt rbind] in H |- *. destruct kvs as [|[nm x] [|? ?]]; try discriminate H.
+        apply rbind_ok in H. destruct H as [var [Hv H]]. apply of_opt_ok in Hv. rewrite Hv. cbn [of_opt rbind].
+        destruct (Hvar var (find_variant_in _ _ _ Hv)) as [Hvs1 Hfi]. unfold variant_simple in Hvs1.
+        apply andb_true_iff in Hvs1. destruct Hvs1 as [Hid Hvd]. rewrite (var_ident_ok _ Hid). cbn [rbind].
+        unfold v_variant_payload in H. destruct (v_det var) eqn:Ed; try discriminate H.
+        -- destruct (IHrec _ _ _ H Hvd) as [e [He Te]]. rewrite He. cbn [optional rbind].
+           eexists. split; [reflexivity|]. eapply typed_varitem; eauto.
+        -- destruct (tuple_step_typed T g _ _ _ IHrec _ _ _ H Hvd) as [es [Hes Pes]]. rewrite Hes. cbn [rbind].
+           eexists. split; [reflexivity|]. eapply typed_vartuple; eauto.
+        -- destruct (struct_step_typed T g n _ _ _ IHrec Hget Hmapn _ _ _ H Hvd) as [fs [Hfs Gfs]]. rewrite Hfs. cbn [rbind].
+           eexists. split; [reflexivity|]. eapply typed_varstruct; eauto. exact (split_props_simple _ _ _ _ Hvd).
+    + (* internal *)
+      unfold v_internal in H. unfold o_internal.
+      apply rbind_ok in H. destruct H as [m [Hm H]]. rewrite Hm. cbn [rbind].
+      apply rbind_ok in H. destruct H as [tv [Ht H]]. rewrite Ht. cbn [rbind].
+      apply rbind_ok in H. destruct H as [sn [Hs H]]. rewrite Hs. cbn [rbind].
+      apply rbind_ok in H. destruct H as [var [Hv H]]. rewrite Hv. cbn [rbind]. apply of_opt_ok in Hv.
+      destruct (Hvar var (find_variant_in _ _ _ Hv)) as [Hvs1 Hfi]. unfold variant_simple in Hvs1.
+      apply andb_true_iff in Hvs1. destruct Hvs1 as [Hid Hvd]. rewrite (var_ident_ok _ Hid). cbn [rbind].
+      destruct (v_det var) eqn:Ed; try discriminate H.
+      * eexists. split; [reflexivity|]. eapply typed_varunit; eauto.
+      * destruct (struct_step_typed T g n _ _ _ IHrec Hget Hmapn _ _ _ H Hvd) as [fs [Hfs Gfs]]. rewrite Hfs. cbn [rbind].
+        eexists. split; [reflexivity|]. eapply typed_varstruct; eauto. exact (split_props_simple _ _ _ _ Hvd).
+    + (* adjacent *)
+      unfold v_adjacent in H. unfold o_adjacent.
+      apply rbind_ok in H. destruct H as [m [Hm H]]. rewrite Hm. cbn [rbind].
+      apply rbind_ok in H. destruct H as [[tv cv] [Ht H]]. rewrite Ht. cbn [rbind].
+      apply rbind_ok in H. destruct H as [var [Hv H]]. rewrite Hv. cbn [rbind]. apply of_opt_ok in Hv.
+      destruct (Hvar var (find_variant_in _ _ _ Hv)) as [Hvs1 Hfi]. unfold variant_simple in Hvs1.
+      apply andb_true_iff in Hvs1. destruct Hvs1 as [Hid Hvd]. rewrite (var_ident_ok _ Hid). cbn [rbind].
+      destruct (v_det var) eqn:Ed; destruct cv; try discriminate H.
+      * eexists. split; [reflexivity|]. eapply typed_varunit; eauto.
+      * destruct (tuple_step_typed T g _ _ _ IHrec _ _ _ H Hvd) as [es [Hes Pes]]. rewrite Hes. cbn [rbind].
+        eexists. split; [reflexivity|]. eapply typed_vartuple; eauto.
+      * destruct (struct_step_typed T g n _ _ _ IHrec Hget Hmapn _ _ _ H Hvd) as [fs [Hfs Gfs]]. rewrite Hfs. cbn [rbind].
+        eexists. split; [reflexivity|]. eapply typed_varstruct; eauto. exact (split_props_simple _ _ _ _ Hvd).
+  - (* struct *)
+    destruct (struct_step_typed T g n _ _ _ IHrec Hget Hmapn _ _ _ H Hf) as [fs [Hfs Gfs]]. rewrite Hfs. cbn [rbind].
+    eexists. split; [reflexivity|]. eapply typed_struct; eauto. exact (split_props_simple _ _ _ _ Hf).
+  - (* newtype *)
+    apply rbind_ok in H. destruct H as [k' [Hk _]].
+    destruct (IHrec _ _ _ Hk Hf) as [e [He Te]]. rewrite He. cbn.
+    eexists. split; [reflexivity|]. cbn [expr_typed]. rewrite Hg, ustr_eqb_refl, Te. reflexivity.
+  - (* native *)
+    eexists. split; [reflexivity|]. cbn [expr_typed]. rewrite Hg. apply ustr_eqb_refl.
+  - (* option *)
+    destruct d; try (apply rbind_ok in H; destruct H as [k' [Hk _]];
+                     destruct (IHrec _ _ _ Hk Hf) as [e [He Te]]; rewrite He; cbn;
+                     eexists; split; [reflexivity|]; cbn [expr_typed]; rewrite Hg; exact Te).
+    eexists. split; [reflexivity|]. cbn [expr_typed]. rewrite Hg. reflexivity.
+  - (* box *)
+    destruct (IHrec _ _ _ H Hf) as [e [He Te]]. rewrite He. cbn.
+    eexists. split; [reflexivity|]. cbn [expr_typed]. rewrite Hg. exact Te.
+  - (* vec *)
+    destruct d; try discriminate H. cbn.
+    destruct (Hget _ Hf) as [dx Hx]. rewrite Hx.
+    assert (Hall : forall x, In x l -> exists e, output_value T n1 t0 x = ROk e /\ expr_typed T g e t0 = true).
+    { intros x Hin. destruct l as [|y l]; [destruct Hin|].
+      apply rbind_ok in H. destruct H as [uu [Hu _]]. destruct uu.
+      destruct (each_ok_in _ _ _ _ Hu x Hin) as [k' Hk]. exact (IHrec _ _ _ Hk Hf). }
+    destruct (map_r_forall _ _ _ _ _ Hall) as [es [Hes [Pes _]]]. rewrite Hes. cbn.
+    eexists. split; [reflexivity|]. exact (typed_vec T g t t0 es Hg Pes).
+  - (* map *)
+    apply andb_true_iff in Hf. destruct Hf as [Hfk Hfv].
+    destruct d; try discriminate H. cbn [as_object of_opt rbind].
+    destruct (Hget _ Hfk) as [dk Hdk]. destruct (Hget _ Hfv) as [dv Hdv]. rewrite Hdk, Hdv.
+    assert (Hall : forall p, In p kvs -> exists ab,
+              (let '(key, x) := p in rbind (output_value T n1 k0 (JStr key)) (fun a => rbind (output_value T n1 v x) (fun b => ROk (a, b)))) = ROk ab /\
+              (expr_typed T g (fst ab) k0 = true /\ expr_typed T g (snd ab) v = true)).
+    { intros [key x] Hin. destruct kvs as [|y kvs]; [destruct Hin|]. rewrite Hdk, Hdv in H.
+      apply rbind_ok in H. destruct H as [uu [Hu _]]. destruct uu.
+      destruct (each_ok_in _ _ _ _ Hu (key, x) Hin) as [k' Hk]. cbn beta iota in Hk.
+      apply rbind_ok in Hk. destruct Hk as [k1 [Hk1 Hk2]].
+      destruct (IHrec _ _ _ Hk1 Hfk) as [a [Ha Ta]]. destruct (IHrec _ _ _ Hk2 Hfv) as [b [Hb Tb]].
+      rewrite Ha. cbn [rbind]. rewrite Hb. cbn [rbind]. eexists. split; [reflexivity|]. split; assumption. }
+    destruct (map_r_forall _ _ _ _ _ Hall) as [es [Hes [Pes _]]]. rewrite Hes. cbn [rbind].
+    eexists. split; [reflexivity|]. exact (typed_map T g t k0 v es Hg Pes).
+  - (* set *)
+    destruct d; try discriminate H. cbn.
+    destruct (Hget _ Hf) as [dx Hx]. rewrite Hx.
+    assert (Hall : forall x, In x l -> exists e, output_value T n1 t0 x = ROk e /\ expr_typed T g e t0 = true).
+    { intros x Hin. destruct l as [|y l]; [destruct Hin|]. rewrite Hx in H.
+      apply rbind_ok in H. destruct H as [uu [Hu _]]. destruct uu.
+      destruct (v_set_elems_in _ _ _ Hu x Hin) as [k' Hk]. exact (IHrec _ _ _ Hk Hf). }
+    destruct (map_r_forall _ _ _ _ _ Hall) as [es [Hes [Pes _]]]. rewrite Hes. cbn.
+    eexists. split; [reflexivity|]. exact (typed_set T g t t0 es Hg Pes).
+  - (* array *)
+    destruct d; try discriminate H. cbn.
+    destruct (N.of_nat (length l) =? n0) eqn:El; [|discriminate H]. cbn [negb] in H.
+    destruct (Hget _ Hf) as [dx Hx]. rewrite Hx in H |- *.
+    assert (Hall : forall x, In x l -> exists e, output_value T n1 t0 x = ROk e /\ expr_typed T g e t0 = true).
+    { intros x Hin. apply rbind_ok in H. destruct H as [uu [Hu _]]. destruct uu.
+      destruct (each_ok_in _ _ _ _ Hu x Hin) as [k' Hk]. exact (IHrec _ _ _ Hk Hf). }
+    destruct (map_r_forall _ _ _ _ _ Hall) as [es [Hes [Pes Hl]]]. rewrite Hes. cbn.
+    eexists. split; [reflexivity|]. apply N.eqb_eq in El.
+    refine (typed_array T g t t0 n0 es Hg _ Pes). rewrite Hl. exact El.
+  - (* tuple *)
+    destruct (tuple_step_typed T g _ _ _ IHrec _ _ _ H Hf) as [es [Hes Pes]]. rewrite Hes. cbn [rbind].
+    eexists. split; [reflexivity|]. exact (typed_tuple T g t ts es Hg Pes).
+  - (* unit *) destruct d; try discriminate H. eexists. split; [reflexivity|]. cbn [expr_typed]. rewrite Hg. reflexivity.
+  - (* boolean *) destruct d; try discriminate H. eexists. split; [reflexivity|]. cbn [expr_typed]. rewrite Hg. reflexivity.
+  - (* integer *)
+    destruct (integer_fits name d) eqn:Ef; [|discriminate H]. cbn [negb] in H.
+    destruct d; try (cbn in H; discriminate H). cbn [is_number negb].
+    unfold known_int in Hf. apply existsb_exists in Hf. destruct Hf as [x [Hin Hx]].
+    apply ustr_eqb_eq in Hx. subst x.
+    assert (Hs : as_u64 (JInt z) <> None \/ as_i64 (JInt z) <> None).
+    { revert H. destruct (as_u64 (JInt z)); [intros _; left; discriminate|].
+      destruct (as_i64 (JInt z)); [intros _; right; discriminate|]. intro H; discriminate H. }
+    pose proof (known_int_lit name Hin z Hs Ef) as Hl. unfold int_lit_ok in Hl.
+    destruct (is_nonzero_name name) eqn:En.
+    + apply andb_true_iff in Hl. destruct Hl as [Hl _].
+      eexists. split; [reflexivity|]. cbn [expr_typed]. rewrite Hg, ustr_eqb_refl, En, Hl. reflexivity.
+    + eexists. split; [reflexivity|]. cbn [expr_typed]. rewrite Hg, ustr_eqb_refl, En, Hl. reflexivity.
+  - (* float *)
+    apply negb_true_iff in Hf.
+    revert H. destruct (is_number d) eqn:En; intro H; [|discriminate H]. cbn [negb]. rewrite Hf.
+    eexists. split; [reflexivity|]. cbn [expr_typed]. rewrite Hg, ustr_eqb_refl, En. reflexivity.
+  - (* string *) destruct d; try discriminate H. eexists. split; [reflexivity|]. cbn [expr_typed]. rewrite Hg. reflexivity.
+  - (* json *) eexists. split; [reflexivity|]. cbn [expr_typed]. rewrite Hg. reflexivity.
+Qed.
+
+(* ================================================================== exactness on the structural fragment *)
+Fixpoint efrag (T : space) (fuel : nat) (t : id) {struct fuel} : bool :=
+  match fuel with
+  | O => false
+  | S n =>
+      match get_det T t with
+      | Some DBoolean | Some DString | Some DUnit => true
+      | Some (DInteger nm) => known_int nm
+      | Some (DFloat nm) => negb (is_nonzero_name nm)
+      | Some (DOption x) | Some (DBox x) | Some (DVec x) | Some (DSet x) | Some (DArray x _)
+      | Some (DNewtype _ _ x _) => efrag T n x
+      | Some (DTuple ts) => forallb (efrag T n) ts
+      | _ => false
+      end
+  end.
+
+Lemma efrag_get : forall T n t, efrag T n t = true -> exists d, get_det T t = Some d.
+Proof. intros T n t H. destruct n; cbn in H; [discriminate|]. destruct (get_det T t); [eauto|discriminate]. Qed.
+
+Definition Exact (T : space) (d : json) (e : expr) : Prop :=
+  exists r, eval_expr T e = Some r /\ approx d r = true.
+
+Lemma map_r_rel : forall A B (P : A -> B -> Prop) (f : A -> res B) l,
+  (forall x, In x l -> exists e, f x = ROk e /\ P x e) ->
+  exists es, map_r f l = ROk es /\ Forall2 P l es.
+Proof.
+  intros A B P f l. induction l as [|y l IH]; intros H.
+  - exists []. split; [reflexivity|constructor].
+  - destruct (H y (or_introl eq_refl)) as [e [He Pe]].
+    destruct (IH (fun x Hx => H x (or_intror Hx))) as [es [Hes Pes]].
+    exists (e :: es). cbn. rewrite He. cbn. rewrite Hes. cbn. split; [reflexivity|constructor; assumption].
+Qed.
+
+Lemma exact_split : forall T l es, Forall2 (Exact T) l es ->
+  exists rs, Forall2 (fun e r => eval_expr T e = Some r) es rs /\ Forall2 (fun x r => approx x r = true) l rs.
+Proof.
+  intros T l es H. induction H as [|x e l es [r [Hr Ha]] _ [rs [IH1 IH2]]].
+  - exists []. split; constructor.
+  - exists (r :: rs). split; constructor; assumption.
+Qed.
+
+Ltac eval_list_tac H :=
+  cbn [eval_expr];
+  match goal with |- option_map _ (?f ?es) = _ =>
+    match type of H with Forall2 _ _ ?rs =>
+      let Hgo := fresh "Hgo" in
+      assert (Hgo : f es = Some rs) by
+        (induction H as [|e r es' rs' He _ IH]; [reflexivity|]; cbn; rewrite He; cbn in IH |- *; rewrite IH; reflexivity);
+      rewrite Hgo; reflexivity
+    end
+  end.
+
+Lemma eval_vec : forall T es rs, Forall2 (fun e r => eval_expr T e = Some r) es rs -> eval_expr T (EVec es) = Some (JArr rs).
+Proof. intros T es rs H. eval_list_tac H. Qed.
+Lemma eval_arr : forall T es rs, Forall2 (fun e r => eval_expr T e = Some r) es rs -> eval_expr T (EArray es) = Some (JArr rs).
+Proof. intros T es rs H. eval_list_tac H. Qed.
+Lemma eval_tup : forall T es rs, Forall2 (fun e r => eval_expr T e = Some r) es rs -> eval_expr T (ETuple es) = Some (JArr rs).
+Proof. intros T es rs H. eval_list_tac H. Qed.
+
+Lemma approx_arr : forall l rs, Forall2 (fun x r => approx x r = true) l rs -> approx (JArr l) (JArr rs) = true.
+Proof. intros l rs H. cbn [approx]. induction H as [|x r l rs Hx _ IH]; [reflexivity|]. cbn. rewrite Hx. exact IH. Qed.
+
+Lemma forall2_combine : forall (Q : json -> expr -> Prop) ts arr es, length arr = length ts ->
+  Forall2 (fun (p : id * json) e => Q (snd p) e) (combine ts arr) es -> Forall2 Q arr es.
+Proof.
+  intros Q ts. induction ts as [|t ts IH]; intros arr es Hl H.
+  - destruct arr; [|discriminate Hl]. cbn in H. inversion H. constructor.
+  - destruct arr as [|x arr]; [discriminate Hl|]. cbn in Hl. injection Hl as Hl. cbn in H. inversion H; subst.
+    constructor; [assumption|]. apply IH; assumption.
+Qed.
+
+Lemma exact_list : forall T l es, Forall2 (Exact T) l es ->
+  exists rs, Forall2 (fun e r => eval_expr T e = Some r) es rs /\ approx (JArr l) (JArr rs) = true.
+Proof.
+  intros T l es H. destruct (exact_split _ _ _ H) as [rs [H1 H2]]. exists rs. split; [exact H1|exact (approx_arr _ _ H2)].
+Qed.
+
+Theorem efrag_exact : forall re T n' f t d k,
+  validate_value re T f t d = ROk k -> efrag T n' t = true ->
+  exists e, output_value T n' t d = ROk e /\ Exact T d e.
+Proof.
+  intros re T n'. induction n' as [|n1 IH]; intros f t d k H Hf; [discriminate Hf|].
+  destruct f as [|n]; [discriminate H|].
+  cbn [validate_value] in H. cbn [efrag] in Hf. cbn [output_value].
+  destruct (get_det T t) as [det|] eqn:Hg; [|discriminate H].
+  destruct det; try discriminate Hf; cbn [validate_det] in H; cbn [output_det].
+  - (* newtype *)
+    apply rbind_ok in H. destruct H as [k' [Hk _]].
+    destruct (IH _ _ _ _ Hk Hf) as [e [He [r [Er Ar]]]]. rewrite He. cbn.
+    eexists. split; [reflexivity|]. exists r. split; [exact Er|exact Ar].
+  - (* option *)
+    destruct d; try (apply rbind_ok in H; destruct H as [k' [Hk _]];
+                     destruct (IH _ _ _ _ Hk Hf) as [e [He [r [Er Ar]]]]; rewrite He; cbn;
+                     eexists; split; [reflexivity|]; exists r; split; [exact Er|exact Ar]).
+    eexists. split; [reflexivity|]. exists JNull. split; reflexivity.
+  - (* box *)
+    destruct (IH _ _ _ _ H Hf) as [e [He [r [Er Ar]]]]. rewrite He. cbn.
+    eexists. split; [reflexivity|]. exists r. split; [exact Er|exact Ar].
+  - (* vec *)
+    destruct d; try discriminate H. cbn.
+    destruct (efrag_get _ _ _ Hf) as [dx Hx]. rewrite Hx.
+    assert (Hall : forall x, In x l -> exists e, output_value T n1 t0 x = ROk e /\ Exact T x e).
+    { intros x Hin. destruct l as [|y l]; [destruct Hin|].
+      apply rbind_ok in H. destruct H as [uu [Hu _]]. destruct uu.
+      destruct (each_ok_in _ _ _ _ Hu x Hin) as [k' Hk]. exact (IH _ _ _ _ Hk Hf). }
+    destruct (map_r_rel _ _ _ _ _ Hall) as [es [Hes Pes]]. rewrite Hes. cbn.
+    destruct (exact_list _ _ _ Pes) as [rs [Ers Ars]].
+    eexists. split; [reflexivity|]. exists (JArr rs). split; [exact (eval_vec _ _ _ Ers)|exact Ars].
+  - (* set *)
+    destruct d; try discriminate H. cbn.
+    destruct (efrag_get _ _ _ Hf) as [dx Hx]. rewrite Hx.
+    assert (Hall : forall x, In x l -> exists e, output_value T n1 t0 x = ROk e /\ Exact T x e).
+    { intros x Hin. destruct l as [|y l]; [destruct Hin|]. rewrite Hx in H.
+      apply rbind_ok in H. destruct H as [uu [Hu _]]. destruct uu.
+      destruct (v_set_elems_in _ _ _ Hu x Hin) as [k' Hk]. exact (IH _ _ _ _ Hk Hf). }
+    destruct (map_r_rel _ _ _ _ _ Hall) as [es [Hes Pes]]. rewrite Hes. cbn.
+    destruct (exact_list _ _ _ Pes) as [rs [Ers Ars]].
+    eexists. split; [reflexivity|]. exists (JArr rs). split; [exact (eval_vec _ _ _ Ers)|exact Ars].
+  - (* array *)
+    destruct d; try discriminate H. cbn.
+    destruct (N.of_nat (length l) =? n0) eqn:El; [|discriminate H]. cbn [negb] in H.
+    destruct (efrag_get _ _ _ Hf) as [dx Hx]. rewrite Hx in H |- *.
+    assert (Hall : forall x, In x l -> exists e, output_value T n1 t0 x = ROk e /\ Exact T x e).
+    { intros x Hin. apply rbind_ok in H. destruct H as [uu [Hu _]]. destruct uu.
+      destruct (each_ok_in _ _ _ _ Hu x Hin) as [k' Hk]. exact (IH _ _ _ _ Hk Hf). }
+    destruct (map_r_rel _ _ _ _ _ Hall) as [es [Hes Pes]]. rewrite Hes. cbn.
+    destruct (exact_list _ _ _ Pes) as [rs [Ers Ars]].
+    eexists. split; [reflexivity|]. exists (JArr rs). split; [exact (eval_arr _ _ _ Ers)|exact Ars].
+  - (* tuple *)
+    unfold v_tuple in H. unfold o_tuple.
+    apply rbind_ok in H. destruct H as [arr [Ha H]]. rewrite Ha. cbn [rbind].
+    destruct (Nat.eqb (length arr) (length ts)) eqn:El; [|discriminate H]. cbn [negb] in H |- *.
+    apply rbind_ok in H. destruct H as [b [Hb H]]. destruct b; [|discriminate H].
+    apply Nat.eqb_eq in El.
+    assert (Hall : forall p, In p (combine ts arr) ->
+              exists e, (let '(t1, x1) := p in output_value T n1 t1 x1) = ROk e /\ Exact T (snd p) e).
+    { intros p Hin. destruct (all_is_ok_true_in _ _ _ _ Hb p Hin) as [k' Hk]. destruct p as [t1 x1].
+      apply in_combine_l in Hin. exact (IH _ _ _ _ Hk (proj1 (forallb_forall _ _) Hf t1 Hin)). }
+    destruct (map_r_rel _ _ (fun p e => Exact T (snd p) e) _ _ Hall) as [es [Hes Pes]]. rewrite Hes. cbn [rbind].
+    apply forall2_combine in Pes; [|exact El].
+    destruct (exact_list _ _ _ Pes) as [rs [Ers Ars]].
+    destruct d; try discriminate Ha. cbn in Ha. inversion Ha; subst.
+    eexists. split; [reflexivity|]. exists (JArr rs). split; [exact (eval_tup _ _ _ Ers)|exact Ars].
+  - (* unit *) destruct d; try discriminate H. eexists. split; [reflexivity|]. exists JNull. split; reflexivity.
+  - (* boolean *) destruct d; try discriminate H. eexists. split; [reflexivity|]. exists (JBool b). split; [reflexivity|].
+    destruct b; reflexivity.
+  - (* integer *)
+    destruct (integer_fits name d) eqn:Ef; [|discriminate H]. cbn [negb] in H.
+    destruct d; try (cbn in H; discriminate H). cbn [is_number negb].
+    unfold known_int in Hf. apply existsb_exists in Hf. destruct Hf as [x [Hin Hx]].
+    apply ustr_eqb_eq in Hx. subst x.
+    assert (Hs : as_u64 (JInt z) <> None \/ as_i64 (JInt z) <> None).
+    { revert H. destruct (as_u64 (JInt z)); [intros _; left; discriminate|].
+      destruct (as_i64 (JInt z)); [intros _; right; discriminate|]. intro H; discriminate H. }
+    pose proof (known_int_lit name Hin z Hs Ef) as Hl. unfold int_lit_ok in Hl.
+    destruct (is_nonzero_name name) eqn:En.
+    + apply andb_true_iff in Hl. destruct Hl as [_ Hz]. apply negb_true_iff in Hz.
+      eexists. split; [reflexivity|]. exists (JInt z). cbn [eval_expr is_zero_number]. rewrite Hz.
+      split; [reflexivity|]. cbn. apply Z.eqb_refl.
+    + eexists. split; [reflexivity|]. exists (JInt z). split; [reflexivity|]. cbn. apply Z.eqb_refl.
+  - (* float *)
+    apply negb_true_iff in Hf.
+    revert H. destruct (is_number d) eqn:En; intro H; [|discriminate H]. cbn [negb]. rewrite Hf.
+    eexists. split; [reflexivity|]. exists d. split; [reflexivity|].
+    destruct d; try discriminate En; cbn; [apply Z.eqb_refl|apply Qeq_bool_iff; reflexivity].
+  - (* string *) destruct d; try discriminate H. eexists. split; [reflexivity|]. exists (JStr s). split; [reflexivity|].
+    cbn. apply ustr_eqb_refl.
+Qed.
+
+(* ------------------------------------------------------------------ finding C06-F12 (still open) *)
+(* Pt { x : i64 (required), y : i64 with its own default 7 }: the default {"x":1} validates and renders
+   `Pt { x: 1_i64, y: Default::default() }` -- the member's own default 7 is not used *)
+Definition Tf12 : space := mk_space [
+  (1, ent (DInteger (u "i64")));
+  (2, ent (DStruct (u "Pt") None [mkProp (u "x") TypeIR.RNone PRequired 1;
+                                  mkProp (u "y") TypeIR.RNone (PDefault (JInt 7)) 1] false))
+]%N.
+Definition Known_F12 (T : space) (e : expr) : Prop := expr_any (is_f12 T) e = true.
+
+Lemma nested_default_fill_refuted :
+  exists T t d k e, validate_value re0 T 3 t d = ROk k /\ output_value T 3 t d = ROk e /\ Known_F12 T e /\
+                    e = EStruct (u "Pt") [(FId (u "x"), ENum (JInt 1) (u "i64")); (FId (u "y"), EDefault)].
+Proof.
+  exists Tf12, 2, (JObj [(u "x", JInt 1)]), KSpecific. eexists.
+  split; [vm_compute; reflexivity|]. split; [vm_compute; reflexivity|]. split; [vm_compute; reflexivity|reflexivity].
+Qed.
